@@ -57,3 +57,51 @@ Definition count_cb (fd : nat) (c : cb) (l : list (nat * cb)) : nat :=
 
 (* the log one connection leaves behind, as the harness prints it (Release hidden, Input collapsed) *)
 Definition show_cb (c : cb) : nat := match c with CConn => 0 | CInput => 1 | CDisc => 2 | CRelease => 3 end.
+
+(* ---- one poll result for a descriptor, with the write table (Transport::onReady, toWrite) ----
+   The acceptor thread prepares the write-queue entry of a new connection (handleNewPeer: toWrite
+   entry, then the peer is queued for the worker) before the worker registers it (handlePeer: peer
+   table, poll set).  A descriptor number can therefore have a write-queue entry while it is not (yet,
+   or no longer) in the worker's peer table.  Re-arming such a descriptor in the poll set fails
+   (ENOENT) and ends the worker: counted in [faults]. *)
+Record wstate := mkW { w_peers : list nat; w_towrite : list nat; w_faults : nat; w_log : list (nat * cb) }.
+Definition winit : wstate := mkW [] [] 0 [].
+
+Inductive wev :=
+| WPrepare (fd : nat)                 (* acceptor thread: toWrite entry for a new connection on this descriptor number *)
+| WRegister (fd : nat)                (* worker: handlePeer *)
+| WIn (fd : nat) (eof : bool)         (* readable half of a poll result; eof: EOF / error, the peer is removed *)
+| WOut (fd : nat) (after_in : bool).  (* writable half; after_in: the same poll result also had the readable half.
+                                         The acceptor thread can run between the two halves. *)
+
+Definition mem (fd : nat) (l : list nat) : bool := existsb (Nat.eqb fd) l.
+
+(* [guarded]: skip the writable half when the peer was removed while its input was handled (fix 31ad8d6) *)
+Definition wstep (guarded : bool) (s : wstate) (e : wev) : wstate :=
+  match e with
+  | WPrepare fd => mkW (w_peers s) (if mem fd (w_towrite s) then w_towrite s else fd :: w_towrite s) (w_faults s) (w_log s)
+  | WRegister fd => if mem fd (w_peers s) then s
+                    else mkW (fd :: w_peers s) (w_towrite s) (w_faults s) (w_log s ++ [(fd, CConn)])
+  | WIn fd eof =>
+      if mem fd (w_peers s) then
+        if eof then mkW (drop fd (w_peers s)) (drop fd (w_towrite s)) (w_faults s) (w_log s ++ [(fd, CDisc); (fd, CRelease)])
+        else mkW (w_peers s) (w_towrite s) (w_faults s) (w_log s ++ [(fd, CInput)])
+      else s
+  | WOut fd after_in =>
+      if guarded && after_in && negb (mem fd (w_peers s)) then s
+      else if mem fd (w_towrite s) then
+             (* re-arm the descriptor in the poll set: fails when the worker has not registered it *)
+             mkW (w_peers s) (w_towrite s) (if mem fd (w_peers s) then w_faults s else S (w_faults s)) (w_log s)
+           else if after_in then s                                   (* 0d7aadf: the peer went away meanwhile *)
+           else mkW (w_peers s) (w_towrite s) (S (w_faults s)) (w_log s)   (* "Assertion Error: could not find write data" *)
+  end.
+Definition wrun (guarded : bool) (h : list wev) : wstate := fold_left (wstep guarded) h winit.
+
+(* histories the kernel can produce: a lone writable report only for a registered descriptor with write interest,
+   i.e. one the worker owns *)
+Definition wev_ok (s : wstate) (e : wev) : bool :=
+  match e with
+  | WOut fd false => mem fd (w_peers s)
+  | WRegister fd => mem fd (w_towrite s)       (* Listener::dispatchPeer prepares before it queues the peer *)
+  | _ => true
+  end.
